@@ -5,6 +5,7 @@ go 1.23.0
 require (
 	github.com/fatedier/frp v0.0.0
 	github.com/samber/lo v1.47.0
+	golang.org/x/net v0.39.0
 )
 
 require (
@@ -44,7 +45,6 @@ require (
 	github.com/xtaci/kcp-go/v5 v5.6.13 // indirect
 	golang.org/x/crypto v0.37.0 // indirect
 	golang.org/x/exp v0.0.0-20241204233417-43b7b7cde48d // indirect
-	golang.org/x/net v0.39.0 // indirect
 	golang.org/x/oauth2 v0.28.0 // indirect
 	golang.org/x/sync v0.13.0 // indirect
 	golang.org/x/sys v0.32.0 // indirect
